@@ -27,6 +27,8 @@ var alphabet = []fragment{
 	{"tab-ind", "\tAND b = 2"},
 	{"sp-ind", "    AND c = 3"},
 	{"mix-ind", "\t  OR d = 4"},
+	{"sp-tab-ind", "  \tAND e = 5"},
+	{"tab-sp-tab-ind", "\t \tOR f = 6"},
 	{"lower-kw", "select a from t"},
 	{"str-1line", "WHERE s = 'and  x '  AND f = 6"},
 	{"str-open", "WHERE s = 'x  select  "},
